@@ -15,7 +15,8 @@ from vlib import common, realrun, workload
 
 LEVEL = 'fault_enumeration'
 
-FAULTS = ['sleep', 'spin1', 'spin4', 'alloc', 'abort', 'segv', 'kill']
+FAULTS = ['sleep', 'spin1', 'spin4', 'alloc', 'abort', 'segv', 'kill',
+          'forksleep']
 GRACE = 10.0
 
 
@@ -45,7 +46,7 @@ def make_case(r):
     lines.append('(check-sat)')
     text = '\n'.join(lines) + '\n'
     fault = r.choice(FAULTS)
-    nf = r.randint(1, 3)
+    nf = r.randint(1, 2)
     rules = []
     # faulty candidates: a token present, another absent (so that the fault
     # only shows on some reductions: first / middle / last in the order)
@@ -60,7 +61,10 @@ def make_case(r):
     rules.append(realrun.rule('all', 0, 'ok\n', ''))
     strat = r.choice(workload.STRATEGIES)
     j = r.choice([1, 1, 4])
-    tmo = r.choice([None, 0.3, 0.5, 1.0])
+    tmo = r.choice([None, 0.2, 0.3, 0.3, 0.5, 0.5])
+    if tmo is None and (fault == 'alloc' or nf > 1):
+        # the automatic limit is about 1.5 s per faulty test
+        tmo = 0.3
     opts = ['--strategy', strat, '-j', str(j)]
     if tmo is not None:
         opts += ['--timeout', str(tmo)]
@@ -245,8 +249,9 @@ def run(ctx):
         'real runs under the launcher (check/exec events): inputs with 4-7 '
         'asserts; 1-3 classes of candidates (token present and another '
         'removed) make the command sleep / spin on 1 or 4 threads / allocate '
-        '(with and without --memout) / abort / segfault / kill itself; '
-        '--timeout explicit {0.3,0.5,1.0} or automatic; -j{1,4}; all '
+        '(with and without --memout) / abort / segfault / kill itself / hang '
+        'after forking a helper that keeps stdout and stderr open; '
+        '--timeout explicit {0.2,0.3,0.5} or automatic; -j{1,4}; all '
         'strategies; plus golden-run cases (segfault, timeout, absent match '
         'string x 2 entry points); distinct non-trivial = distinct cases in '
         'which at least one faulty test was really executed')
